@@ -96,7 +96,7 @@ theorem foldl_consts (st : RSt) (ms : List LitM) :
 theorem filterMap_names (ss : List Scalar) : (ss.map (fun x => TExpr.name x.id)).filterMap TExpr.constVal? = [] := by
   induction ss with
   | nil => rfl
-  | cons a t ih => simpa [TExpr.constVal?] using ih
+  | cons a t ih => simp [TExpr.constVal?, ih]
 theorem filterMap_consts (ms : List LitM) :
     (ms.map (fun x => TExpr.const x.const)).filterMap TExpr.constVal? = ms.map LitM.const := by
   induction ms with
@@ -370,4 +370,585 @@ theorem param2argparse_dom (p : DParam) (h : p.WF = true) : param2argparse p.toP
   unfold param2argparse
   simp only [DParam.toParam] at hc ⊢
   simp only [extractDefault, htf, if_true, hc]
+/-! ## `param2ast` on the domain -/
+theorem retype_dom (d : Option Const) (t : DTyp) : retype d (some t.toExpr) = .ok (some t.toExpr) := by
+  cases d with
+  | none => cases t <;> rfl
+  | some c =>
+    cases t with
+    | scalar s => cases s <;> cases c <;> rfl
+    | union a rest => cases rest <;> cases c <;> rfl
+    | _ => cases c <;> rfl
+
+def DTyp.hasStr : DTyp → Bool
+  | .scalar s => s == .str | .optional s => s == .str | .union a rest => (a :: rest).any (· == .str)
+  | .list s => s == .str | .literal m ms => (m :: ms).any LitM.isStr | .optLiteral m ms => (m :: ms).any LitM.isStr
+  | .annotated _ _ => true | .tupleEllipsis s => s == .str | .callableEllipsis s => s == .str
+
+def nqPred (n : TExpr) : Bool := match n with
+  | .const (.str _) => true
+  | .name i => i == sStr
+  | _ => false
+
+theorem needsQuoting_sub (v s : TExpr) : needsQuoting (.sub v s) = (walk (.sub v s)).any nqPred := rfl
+
+theorem any_names (ss : List Scalar) : (ss.map (fun x => TExpr.name x.id)).any nqPred = ss.any (· == .str) := by
+  induction ss with
+  | nil => rfl
+  | cons a t ih => simp only [List.map_cons, List.any_cons, ih, nqPred, id_eq_str]
+
+theorem any_consts (ms : List LitM) : (ms.map (fun x => TExpr.const x.const)).any nqPred = ms.any LitM.isStr := by
+  induction ms with
+  | nil => rfl
+  | cons a t ih =>
+    have : nqPred (.const a.const) = a.isStr := by cases a <;> rfl
+    simp only [List.map_cons, List.any_cons, ih, this]
+
+theorem needsQuoting_dom (t : DTyp) : needsQuoting t.toExpr = t.hasStr := by
+  cases t with
+  | scalar s => cases s <;> rfl
+  | optional s => cases s <;> rfl
+  | list s => cases s <;> rfl
+  | annotated s note => cases s <;> rfl
+  | tupleEllipsis s => cases s <;> rfl
+  | callableEllipsis s => cases s <;> rfl
+  | union a rest =>
+    cases rest with
+    | nil => cases a <;> rfl
+    | cons b r =>
+      simp only [DTyp.toExpr, needsQuoting_sub]
+      rw [walk_sub_tuple _ _ (names_leaves _)]
+      simp only [List.any_cons, any_names, DTyp.hasStr]
+      rfl
+  | literal m ms =>
+    cases ms with
+    | nil => cases m <;> rfl
+    | cons b r =>
+      simp only [DTyp.toExpr, litSlice, needsQuoting_sub]
+      rw [walk_sub_tuple _ _ (consts_leaves _)]
+      simp only [List.any_cons, any_consts, DTyp.hasStr]
+      rfl
+  | optLiteral m ms =>
+    cases ms with
+    | nil => cases m <;> rfl
+    | cons b r =>
+      simp only [DTyp.toExpr, litSlice, needsQuoting_sub]
+      rw [walk_opt_sub_tuple _ _ _ (consts_leaves _)]
+      simp only [List.any_cons, any_consts, DTyp.hasStr]
+      rfl
+
+/-! ### values -/
+theorem plain_ne {v : Str} (h : plainStr v = true) : v ≠ noneStr := by
+  simp only [plainStr, Bool.and_eq_true, Bool.not_eq_true'] at h
+  intro hv; subst hv; exact absurd h.1 (by decide)
+
+theorem plain_ne_noneStr {v : Str} (h : plainStr v = true) : (Const.str v == Const.str noneStr) = false :=
+  beq_false_of_ne (fun hc => plain_ne h (by injection hc))
+
+theorem getDefaultVal_plain (d : DDefault) (hp : ∀ v, d = .str v → plainStr v = true) :
+    getDefaultVal (some d.toDefault.raw) = some (.c d.val) := by
+  cases d with
+  | str v =>
+    simp only [getDefaultVal, DDefault.toDefault, Default.raw, DDefault.val, Option.map_some, plain_ne_noneStr (hp v rfl),
+      setValue_plain (hp v rfl), Bool.false_eq_true, if_false]
+  | none => rfl
+  | int i => rfl
+  | float r => rfl
+  | bool b => rfl
+
+theorem sameQuoteEnds_wrap (v : Str) : sameQuoteEnds ('"' :: v ++ ['"']) = true := by
+  have : ('"' :: v ++ ['"']).getLast? = some '"' := by
+    exact List.getLast?_concat ..
+  unfold sameQuoteEnds
+  rw [this]
+  rfl
+
+theorem quoted_roundtrip {v : Str} (h : plainStr v = true) :
+    getDefaultVal (quotedDefault (some (.str v))) = some (.c (.str v)) := by
+  have hne := plain_ne_noneStr h
+  have hsv := setValue_plain h
+  simp only [quotedDefault, hne, Bool.false_eq_true, if_false, quoteC]
+  by_cases h1 : (v.length == 0 || (decide (v.length > 1) && sameQuoteEnds v)) = true
+  · simp only [h1, if_true, getDefaultVal, Option.map_some, hne, Bool.false_eq_true, if_false, hsv]
+  · simp only [h1, getDefaultVal, Option.map_some]
+    have hlen : v.length ≠ 0 := by
+      intro h0; apply h1; simp [h0]
+    have hw : quoteWrapped ('"' :: v ++ ['"']) = true := by
+      simp only [quoteWrapped, sameQuoteEnds_wrap, Bool.and_true, decide_eq_true_eq]
+      simp; omega
+    have hne2 : (Const.str ('"' :: v ++ ['"']) == Const.str noneStr) = false := by
+      apply beq_false_of_ne
+      intro hc
+      injection hc with hc
+      have := congrArg List.head? hc
+      simp [noneStr, ticks] at this
+    simp only [hne2, Bool.false_eq_true, if_false, setValue, hw, if_true]
+    simp
+
+theorem quotedDefault_plain (d : DDefault) (hp : ∀ v, d = .str v → plainStr v = true) :
+    getDefaultVal (quotedDefault (some d.toDefault.raw)) = some (.c d.val) := by
+  cases d with
+  | str v => exact quoted_roundtrip (hp v rfl)
+  | none => rfl
+  | int i => rfl
+  | float r => rfl
+  | bool b => rfl
+
+theorem scalar_admits_hasStr {s : Scalar} {v : Str} (h : s.admits (.str v) = true) : s = .str := (scalar_admits_str h).1
+
+theorem lit_admits_isStr : ∀ (ms : List LitM) (v : Str), (ms.any (·.admits (.str v))) = true → ms.any LitM.isStr = true
+  | [], _, h => by simp at h
+  | m :: ms, v, h => by
+    simp only [List.any_cons, Bool.or_eq_true] at h ⊢
+    rcases h with h | h
+    · cases m with
+      | s a => left; rfl
+      | i a => simp [LitM.admits] at h
+    · right; exact lit_admits_isStr ms v h
+
+theorem admits_str_hasStr (t : DTyp) (v : Str) (h : t.admits (.str v) = true) : t.hasStr = true := by
+  cases t with
+  | scalar s => simp [DTyp.hasStr, scalar_admits_hasStr h]
+  | optional s =>
+    simp only [DTyp.admits, Bool.or_eq_true] at h
+    rcases h with h | h
+    · simp at h
+    · simp [DTyp.hasStr, scalar_admits_hasStr h]
+  | union a rest =>
+    simp only [DTyp.admits, List.any_eq_true] at h
+    obtain ⟨s, hs, hs2⟩ := h
+    simp only [DTyp.hasStr, List.any_eq_true]
+    exact ⟨s, hs, by simp [scalar_admits_hasStr hs2]⟩
+  | list s => simp [DTyp.admits] at h
+  | literal m ms => exact lit_admits_isStr (m :: ms) v (by simpa [DTyp.admits] using h)
+  | optLiteral m ms =>
+    simp only [DTyp.admits, Bool.or_eq_true] at h
+    rcases h with h | h
+    · simp at h
+    · exact lit_admits_isStr (m :: ms) v h
+  | annotated s note => rfl
+  | tupleEllipsis s => simp [DTyp.admits] at h
+  | callableEllipsis s => simp [DTyp.admits] at h
+
+theorem genericValue_dom (d : DDefault) (hns : ∀ v, d ≠ .str v) : genericValue (some d.toDefault) = .ok (some (.c d.val)) := by
+  cases d with
+  | str v => exact absurd rfl (hns v)
+  | none => rfl
+  | int i => rfl
+  | float r => rfl
+  | bool b => rfl
+
+/-- **`param2ast` on the domain:** annotation = the described type, value = the described default (if any) -/
+theorem param2ast_dom (name doc : Str) (t : DTyp) (d : Option DDefault) (hpl : t.plain = true)
+    (hadm : ∀ x, d = some x → t.admits x = true) :
+    param2ast { name := name, typ := some t.toExpr, doc := doc, default := d.map DDefault.toDefault } =
+      .ok (.annAssign name t.toExpr (d.map (fun x => Val.c x.val))) := by
+  have hplain : ∀ x v, d = some x → x = .str v → plainStr v = true :=
+    fun x v hx hv => admits_str_plain t hpl v (by rw [← hv]; exact hadm x hx)
+  unfold param2ast
+  simp only [retype_dom]
+  unfold param2astTyped
+  simp only [needsQuoting_dom, simpleName_dom, isName_dict_dom]
+  cases d with
+  | none =>
+    cases hq : t.hasStr
+    · cases t <;> simp [genericValue, getDefaultVal]
+    · simp [getDefaultVal, quotedDefault]
+  | some x =>
+    have hp := fun v hv => hplain x v rfl hv
+    simp only [Option.map_some]
+    cases hq : t.hasStr
+    · have hns : ∀ v, x ≠ .str v := by
+        intro v hv
+        have := admits_str_hasStr t v (by rw [← hv]; exact hadm x rfl)
+        rw [hq] at this; cases this
+      simp only [Bool.false_eq_true, if_false, genericValue_dom x hns, getDefaultVal_plain x hp]
+      cases t <;> simp
+    · simp only [if_true, quotedDefault_plain x hp]
+/-! ## function signature on the domain -/
+theorem zip_map_map {α β γ} (f : α → β) (g : α → γ) : ∀ l : List α, (l.map f).zip (l.map g) = l.map (fun x => (f x, g x))
+  | [] => rfl
+  | a :: l => by simp [zip_map_map f g l]
+
+/-- no string default is the word `None` (which `function` turns into the constant `None`) -/
+def DParam.noNoneWord (p : DParam) : Bool := p.default != some (.str sNone)
+
+theorem funcDefault_dom (p : DParam) (h : p.WF = true) (hn : p.noNoneWord = true) :
+    funcDefault (p.default.map DDefault.toDefault) = .c ((p.default.getD .none).val) := by
+  obtain ⟨_, _, hpl, hadm⟩ := WF_parts h
+  cases hd : p.default with
+  | none => rfl
+  | some d =>
+    cases d with
+    | str v =>
+      have hp := admits_str_plain p.typ hpl v (hadm _ hd)
+      have h1 : (Const.str v == Const.str sNone) = false := by
+        apply beq_false_of_ne; intro hc; injection hc with hc
+        simp [DParam.noNoneWord, hd, hc] at hn
+      simp only [Option.map_some, DDefault.toDefault, funcDefault, Default.raw, h1, plain_ne_noneStr hp, Bool.or_self,
+        Bool.false_eq_true, if_false, setValue_plain hp, Option.getD_some, DDefault.val]
+    | none => rfl
+    | int i => rfl
+    | float r => rfl
+    | bool b => rfl
+
+/-- every absent default replaced by the described default `None` -/
+def fillNone (ir : DIR) : DIR :=
+  { ir with params := ir.params.map (fun p => { p with default := some (p.default.getD .none) }) }
+
+theorem filter_kwargs (ps : List DParam) (h : ps.all DParam.WF = true) :
+    (ps.map DParam.toParam).filter (fun p => !endsWith p.name sKwargs) = ps.map DParam.toParam := by
+  apply List.filter_eq_self.mpr
+  intro q hq
+  obtain ⟨p, hp, rfl⟩ := List.mem_map.mp hq
+  have := (WF_parts (List.all_eq_true.mp h p hp)).1
+  simp [DParam.toParam, this]
+
+theorem find_kwargs (ps : List DParam) (h : ps.all DParam.WF = true) :
+    (ps.map DParam.toParam).find? (fun p => endsWith p.name sKwargs) = none := by
+  apply List.find?_eq_none.mpr
+  intro q hq
+  obtain ⟨p, hp, rfl⟩ := List.mem_map.mp hq
+  have := (WF_parts (List.all_eq_true.mp h p hp)).1
+  simp [DParam.toParam, this]
+
+theorem signature_dom (cfg : FuncCfg) (ir : DIR) (h : ir.WF = true) (hn : ir.params.all DParam.noNoneWord = true) :
+    signature (emitFunction cfg ir.toIR) = .ok (describeSig cfg (fillNone ir)) := by
+  have hwf : ir.params.all DParam.WF = true := by
+    simp only [DIR.WF, Bool.and_eq_true] at h; exact h.1
+  have hdefs : (ir.params.map DParam.toParam).map (fun p => funcDefault p.default) =
+      ir.params.map (fun p => Val.c ((p.default.getD .none).val)) := by
+    rw [List.map_map]
+    apply List.map_congr_left
+    intro p hp
+    exact funcDefault_dom p (List.all_eq_true.mp hwf p hp) (List.all_eq_true.mp hn p hp)
+  unfold emitFunction signature
+  simp only [DIR.toIR, filter_kwargs _ hwf, find_kwargs _ hwf, hdefs, Option.map_none]
+  obtain ⟨ta, kw, ft⟩ := cfg
+  have hret : (Option.map (fun r : DTyp × Str => ({ name := sReturnType, typ := some r.1.toExpr, doc := r.2, default := none } : Param)) ir.returns).bind (·.typ)
+      = ir.returns.map (·.1.toExpr) := by cases ir.returns <;> rfl
+  cases kw <;> cases ft with
+  | none => simp [describeSig, fillNone, zip_map_map, DParam.toParam, List.map_map, Function.comp_def, hret]
+  | some f =>
+    by_cases hf : f = sStatic <;>
+      simp [describeSig, fillNone, zip_map_map, DParam.toParam, List.map_map, Function.comp_def, hret, hf]
+
+theorem fillNone_id (ir : DIR) (h : ∀ p ∈ ir.params, p.default.isSome = true) : fillNone ir = ir := by
+  obtain ⟨n, d, ps, r⟩ := ir
+  simp only [fillNone, DIR.mk.injEq, true_and, and_true]
+  conv => rhs; rw [← List.map_id ps]
+  apply List.map_congr_left
+  intro p hp
+  have := h p hp
+  obtain ⟨pn, pt, pd, pdef⟩ := p
+  cases pdef with
+  | none => simp at this
+  | some x => rfl
+/-! ## list level -/
+theorem mapE_map_ok {α β γ} (f : β → Except String γ) (h : α → β) (g : α → γ) :
+    ∀ (l : List α), (∀ a ∈ l, f (h a) = .ok (g a)) → mapE f (l.map h) = .ok (l.map g)
+  | [], _ => rfl
+  | a :: as, H => by
+    have h1 := H a (List.mem_cons_self ..)
+    have h2 := mapE_map_ok f h g as (fun x hx => H x (List.mem_cons_of_mem _ hx))
+    simp [mapE, h1, h2]
+
+theorem filterMap_congr' {α β} (f g : α → Option β) : ∀ (l : List α), (∀ a ∈ l, f a = g a) → l.filterMap f = l.filterMap g
+  | [], _ => rfl
+  | a :: as, H => by
+    simp only [List.filterMap_cons, H a (List.mem_cons_self ..),
+      filterMap_congr' f g as (fun x hx => H x (List.mem_cons_of_mem _ hx))]
+
+theorem mapE_append_ok {α β} (f : α → Except String β) (l1 l2 : List α) (r1 r2 : List β)
+    (h1 : mapE f l1 = .ok r1) (h2 : mapE f l2 = .ok r2) : mapE f (l1 ++ l2) = .ok (r1 ++ r2) := by
+  induction l1 generalizing r1 with
+  | nil => simp [mapE] at h1; subst h1; simpa using h2
+  | cons a as ih =>
+    simp only [List.cons_append, mapE] at h1 ⊢
+    cases hfa : f a with
+    | error e => simp [hfa] at h1
+    | ok b =>
+      simp only [hfa] at h1 ⊢
+      cases hm : mapE f as with
+      | error e => simp [hm] at h1
+      | ok bs =>
+        simp only [hm] at h1
+        injection h1 with h1; subst h1
+        simp [ih bs hm]
+
+/-- the attribute statement of one described parameter -/
+def attrStmt (p : DParam) : ClassStmt := .annAssign p.name p.typ.toExpr (p.default.map (fun x => Val.c x.val))
+
+theorem emitClass_dom (bases : List Str) (ir : DIR) (h : ir.WF = true) :
+    emitClass bases ir.toIR = .ok { name := ir.name, bases, body := ir.params.map attrStmt ++
+      (match ir.returns with | some r => [.annAssign sReturnType r.1.toExpr none] | none => []) } := by
+  have hwf : ir.params.all DParam.WF = true := by
+    simp only [DIR.WF, Bool.and_eq_true] at h; exact h.1
+  have hps : mapE param2ast (ir.params.map DParam.toParam) = .ok (ir.params.map attrStmt) := by
+    apply mapE_map_ok
+    intro p hp
+    have hw := List.all_eq_true.mp hwf p hp
+    obtain ⟨_, _, hpl, hadm⟩ := WF_parts hw
+    exact param2ast_dom p.name p.doc p.typ p.default hpl hadm
+  obtain ⟨n, d, ps, ret⟩ := ir
+  cases ret with
+  | none =>
+    simp only [emitClass, DIR.toIR, Option.map_none] at hps ⊢
+    simp [hps, bind, Except.bind, pure, Except.pure]
+  | some r =>
+    have hrp : r.1.plain = true := by
+      simp only [DIR.WF, Bool.and_eq_true] at h; exact h.2
+    have hnone : ((ps.map DParam.toParam).any (·.name == sReturnType)) = false := by
+      rw [List.any_eq_false]
+      intro q hq
+      obtain ⟨p, hp, rfl⟩ := List.mem_map.mp hq
+      have hw := List.all_eq_true.mp hwf p hp
+      simp only [DParam.WF, Bool.and_eq_true] at hw
+      simpa [DParam.toParam] using hw.1.1.1.2
+    have hr := param2ast_dom sReturnType r.2 r.1 none hrp (by intro x hx; cases hx)
+    have hr1 : mapE param2ast [{ name := sReturnType, typ := some r.1.toExpr, doc := r.2, default := none }] =
+        .ok [.annAssign sReturnType r.1.toExpr none] := by
+      simp only [Option.map_none] at hr
+      simp [mapE, hr]
+    simp only [emitClass, DIR.toIR, Option.map_some, updateReturn, hnone, Bool.false_eq_true, if_false] at hps ⊢
+    rw [mapE_append_ok _ _ _ _ _ hps hr1]
+    rfl
+
+theorem classAttrs_dom (bases : List Str) (ir : DIR) (h : ir.WF = true) :
+    (emitClass bases ir.toIR).map classAttrs = .ok (describeClass ir) := by
+  rw [emitClass_dom bases ir h]
+  simp only [Except.map, classAttrs, describeClass, List.filterMap_append, List.filterMap_map, Function.comp_def, attrStmt]
+  congr 2
+  · cases ir.returns <;> simp
+  · cases ir.returns with
+    | none =>
+      simp only [List.filterMap_nil, List.append_nil]
+      apply filterMap_congr'
+      intro p _
+      cases p.default <;> rfl
+    | some r =>
+      simp only [List.filterMap_cons, List.filterMap_nil, List.append_nil]
+      apply filterMap_congr'
+      intro p _
+      cases p.default <;> rfl
+/-! ## the populated parser on the domain -/
+
+/-- the action the emitted `add_argument` call creates for a parameter of the domain -/
+def emittedAction (p : DParam) : Action :=
+  { dest := p.name, conv := (emittedScalar p).conv, choices := p.typ.resChoices, default := describedDefault p,
+    required := emittedRequired p, help := describedHelp p, append := p.typ.isList }
+
+theorem actionOf_closed (p : DParam) : actionOf (closedAdd p) = .ok (emittedAction p) := by
+  unfold actionOf closedAdd emittedAction
+  generalize emittedScalar p = e
+  generalize p.typ.isList = l
+  cases e <;> cases l <;> rfl
+
+theorem actions_dom (ir : DIR) (h : ir.WF = true) : actions ir.toIR = .ok (ir.params.map emittedAction) := by
+  have hwf : ir.params.all DParam.WF = true := by
+    simp only [DIR.WF, Bool.and_eq_true] at h; exact h.1
+  have h1 : emitArgparse ir.toIR = .ok (ir.params.map closedAdd) := by
+    unfold emitArgparse
+    simp only [DIR.toIR]
+    exact mapE_map_ok _ _ _ _ (fun p hp => param2argparse_dom p (List.all_eq_true.mp hwf p hp))
+  unfold actions
+  rw [h1]
+  exact mapE_map_ok _ _ _ _ (fun p _ => actionOf_closed p)
+
+/-- `parse_args([])` on a list of actions: exits iff one is required, else the (converted) defaults -/
+def emptyValue (a : Action) : Str × RVal :=
+  (a.dest, match a.default with
+    | some (.str s) => .one ((convert a.conv (classify s)).getD .none)
+    | some c => .one c
+    | none => .one .none)
+
+theorem parseArgs_empty : ∀ (acts : List Action),
+    (∀ a ∈ acts, ∀ s, a.default = some (.str s) → (convert a.conv (classify s)).isSome = true) →
+    parseArgs acts [] = if acts.any (·.required) then .error "exit: required" else .ok (acts.map emptyValue)
+  | [], _ => rfl
+  | a :: as, H => by
+    have ih := parseArgs_empty as (fun x hx => H x (List.mem_cons_of_mem _ hx))
+    have ha := H a (List.mem_cons_self ..)
+    simp only [parseArgs, List.any_nil, Bool.false_eq_true, if_false, mapE] at ih ⊢
+    cases hr : a.required with
+    | true => simp [parseOne, lookupAll, hr]
+    | false =>
+      have h1 : parseOne [] a = .ok (emptyValue a) := by
+        unfold parseOne emptyValue
+        simp only [lookupAll, List.filter_nil, List.map_nil, hr, Bool.false_eq_true, if_false]
+        cases hd : a.default with
+        | none => rfl
+        | some c =>
+          cases c with
+          | str s =>
+            have := ha s hd
+            cases hc : convert a.conv (classify s) with
+            | none => simp [hc] at this
+            | some v => simp only [hc, Option.getD_some]
+          | _ => rfl
+      simp only [h1, List.any_cons, hr, Bool.false_or, List.map_cons]
+      cases hany : as.any (·.required) with
+      | true => simp [hany] at ih; simp [ih]
+      | false => simp [hany] at ih; simp [ih]
+/-! ## field-level facts about `emittedAction` -/
+
+/-- where the emitted `required` flag agrees with the description: `Optional` types, and parameters without a default
+    whose converter is not `bool` -/
+def requiredAgrees (p : DParam) : Bool := p.typ.isOptional || (p.default.isNone && p.typ.resScalar != .bool)
+
+theorem admits_none_optional (t : DTyp) (h : t.admits .none = true) : t.isOptional = true := by
+  cases t with
+  | scalar s => cases s <;> simp [DTyp.admits, Scalar.admits] at h
+  | optional s => rfl
+  | union a rest =>
+    simp only [DTyp.admits, List.any_eq_true] at h
+    obtain ⟨s, _, hs⟩ := h
+    cases s <;> simp [Scalar.admits] at hs
+  | list s => simp [DTyp.admits] at h
+  | literal m ms =>
+    simp only [DTyp.admits, List.any_eq_true] at h
+    obtain ⟨x, _, hx⟩ := h
+    cases x <;> simp [LitM.admits] at hx
+  | optLiteral m ms => rfl
+  | annotated s note => cases s <;> simp [DTyp.admits, Scalar.admits] at h
+  | tupleEllipsis s => simp [DTyp.admits] at h
+  | callableEllipsis s => simp [DTyp.admits] at h
+
+theorem emittedRequired_iff (p : DParam) (h : p.WF = true) :
+    emittedRequired p = describedRequired p ↔ requiredAgrees p = true := by
+  obtain ⟨_, _, _, hadm⟩ := WF_parts h
+  unfold emittedRequired describedRequired requiredAgrees DTyp.resolved
+  cases hd : p.default with
+  | none =>
+    cases p.typ.isOptional <;> cases hb : (p.typ.resScalar == Scalar.bool) <;> simp [hb, bne]
+  | some d =>
+    cases ho : p.typ.isOptional with
+    | true => cases d <;> simp
+    | false =>
+      have hne : d ≠ .none := by
+        intro hdn; subst hdn
+        have := admits_none_optional p.typ (hadm _ hd)
+        rw [ho] at this; cases this
+      cases d with
+      | none => exact absurd rfl hne
+      | _ => cases hb : (p.typ.resScalar == Scalar.bool) <;> simp
+
+/-- types for which the emitted converter is exactly the described scalar's -/
+def DTyp.scalarLike : DTyp → Option Scalar
+  | .scalar s => some s | .optional s => some s | .list s => some s | .annotated s _ => some s | _ => none
+
+theorem emittedScalar_scalarLike (p : DParam) (h : p.WF = true) (s : Scalar) (hs : p.typ.scalarLike = some s) :
+    emittedScalar p = s ∧ p.typ.resChoices = none := by
+  obtain ⟨_, _, _, hadm⟩ := WF_parts h
+  obtain ⟨name, typ, doc, dflt⟩ := p
+  simp only at hs hadm
+  have key : ∀ d, typ.admits d = true → d = .none ∨ s.admits d = true := by
+    intro d hd
+    cases typ with
+    | scalar s' => simp only [DTyp.scalarLike, Option.some.injEq] at hs; subst hs; right; exact hd
+    | optional s' =>
+      simp only [DTyp.scalarLike, Option.some.injEq] at hs; subst hs
+      simp only [DTyp.admits, Bool.or_eq_true, beq_iff_eq] at hd; exact hd
+    | list s' => simp [DTyp.admits] at hd
+    | annotated s' n => simp only [DTyp.scalarLike, Option.some.injEq] at hs; subst hs; right; exact hd
+    | _ => simp [DTyp.scalarLike] at hs
+  have hres : typ.resScalar = s ∧ typ.resChoices = none := by
+    cases typ <;> simp_all [DTyp.scalarLike, DTyp.resScalar, DTyp.resChoices]
+  refine ⟨?_, hres.2⟩
+  unfold emittedScalar
+  cases dflt with
+  | none => exact hres.1
+  | some d =>
+    rcases key d (hadm d rfl) with hn | ha
+    · subst hn; exact hres.1
+    · cases d <;> cases s <;> simp_all [Scalar.admits]
+
+theorem convert_legal (s : Scalar) (t : Tok) : (convert s.conv t).isSome = s.legalTok t := by
+  cases s <;> simp [convert, Scalar.conv, Scalar.legalTok]
+
+theorem accepts_scalarLike (p : DParam) (h : p.WF = true) (s : Scalar) (hs : p.typ.scalarLike = some s) (t : Tok) :
+    acceptsTok (emittedAction p) t = p.typ.legalTok t := by
+  obtain ⟨he, hc⟩ := emittedScalar_scalarLike p h s hs
+  have hl : p.typ.legalTok t = s.legalTok t := by
+    cases hp : p.typ <;> simp_all [DTyp.scalarLike, DTyp.legalTok]
+  rw [hl, ← convert_legal]
+  unfold acceptsTok convertChecked emittedAction
+  simp only [he, hc]
+  cases convert s.conv t <;> rfl
+
+/-- every member of a `Literal` is a string (vacuously true for the other types) -/
+def DTyp.allStrMembers : DTyp → Bool
+  | .literal m ms => (m :: ms).all LitM.isStr
+  | .optLiteral m ms => (m :: ms).all LitM.isStr
+  | _ => true
+
+theorem any_pyEq_str (text : Str) : ∀ (ms : List LitM), ms.all LitM.isStr = true →
+    (ms.map LitM.const).any (pyEq (.str text)) = ms.any (·.legalTok { text := text, asInt := ai, asFloat := af })
+  | [], _ => rfl
+  | m :: ms, h => by
+    simp only [List.all_cons, Bool.and_eq_true] at h
+    have ih := any_pyEq_str (ai := ai) (af := af) text ms h.2
+    cases m with
+    | s v =>
+      simp only [List.map_cons, List.any_cons, ih, LitM.const, LitM.legalTok]
+      congr 1
+      show (Const.str text == Const.str v) = (text == v)
+      by_cases hv : text = v
+      · subst hv; simp
+      · have : Const.str text ≠ Const.str v := fun hc => hv (by injection hc)
+        rw [beq_false_of_ne this, beq_false_of_ne hv]
+    | i v => simp [LitM.isStr] at h
+
+theorem lit_admits_int_not_allStr : ∀ (ms : List LitM) (i : Int), ms.all LitM.isStr = true → ms.any (·.admits (.int i)) = false
+  | [], _, _ => rfl
+  | m :: ms, i, h => by
+    simp only [List.all_cons, Bool.and_eq_true] at h
+    cases m with
+    | s v =>
+      have ih := lit_admits_int_not_allStr ms i h.2
+      simp only [List.any_cons, ih, Bool.or_false]
+      rfl
+    | i v => simp [LitM.isStr] at h
+
+theorem lit_admits_kind : ∀ (ms : List LitM) (d : DDefault), ms.any (·.admits d) = true → (∃ v, d = .str v) ∨ (∃ i, d = .int i)
+  | [], _, h => by simp at h
+  | m :: ms, d, h => by
+    simp only [List.any_cons, Bool.or_eq_true] at h
+    rcases h with h | h
+    · cases m <;> cases d <;> simp_all [LitM.admits]
+    · exact lit_admits_kind ms d h
+
+theorem emittedScalar_literal (p : DParam) (h : p.WF = true) (m : LitM) (ms : List LitM)
+    (ht : p.typ = .literal m ms ∨ p.typ = .optLiteral m ms) (hall : (m :: ms).all LitM.isStr = true) :
+    emittedScalar p = .str := by
+  obtain ⟨_, _, _, hadm⟩ := WF_parts h
+  obtain ⟨name, typ, doc, dflt⟩ := p
+  simp only at ht hadm
+  have hres : typ.resScalar = .str := by rcases ht with ht | ht <;> subst ht <;> rfl
+  unfold emittedScalar
+  cases dflt with
+  | none => exact hres
+  | some d =>
+    have had := hadm d rfl
+    have hk : d = .none ∨ (m :: ms).any (·.admits d) = true := by
+      rcases ht with ht | ht <;> subst ht
+      · right; simpa [DTyp.admits] using had
+      · simpa [DTyp.admits] using had
+    rcases hk with hk | hk
+    · subst hk; exact hres
+    · rcases lit_admits_kind _ _ hk with ⟨v, rfl⟩ | ⟨i, rfl⟩
+      · rfl
+      · rw [lit_admits_int_not_allStr _ i hall] at hk; cases hk
+
+theorem accepts_literal (p : DParam) (h : p.WF = true) (m b : LitM) (r : List LitM)
+    (ht : p.typ = .literal m (b :: r) ∨ p.typ = .optLiteral m (b :: r)) (hall : (m :: b :: r).all LitM.isStr = true) (t : Tok) :
+    acceptsTok (emittedAction p) t = p.typ.legalTok t := by
+  have he := emittedScalar_literal p h m (b :: r) ht hall
+  have hc : p.typ.resChoices = some ((m :: b :: r).map LitM.const) := by rcases ht with ht | ht <;> rw [ht] <;> rfl
+  have hl : p.typ.legalTok t = (m :: b :: r).any (·.legalTok t) := by rcases ht with ht | ht <;> rw [ht] <;> rfl
+  obtain ⟨text, ai, af⟩ := t
+  rw [hl, ← any_pyEq_str (ai := ai) (af := af) text _ hall]
+  unfold acceptsTok convertChecked emittedAction
+  simp only [he, hc, Scalar.conv, convert]
+  cases ((m :: b :: r).map LitM.const).any (pyEq (.str text)) <;> rfl
 end EmitIface
